@@ -32,6 +32,9 @@ def view(x):
         x = x[0]
     if x == DATA:
         return (DATA, 0, DATA_LEN)
+    if isinstance(x, tuple) and len(x) == 2 and isinstance(x[1], str) and re.match(r"\.some(\.\*)*$", x[1]) and isinstance(x[0], tuple) \
+            and len(x[0]) == 3 and isinstance(x[0][0], str) and re.search(r"(^|::)get(_mut)?$", x[0][0]):
+        return view(("index",) + tuple(x[0][1:]))          # the Some payload of s.get(range) is s[range]
     if isinstance(x, tuple) and len(x) == 2 and isinstance(x[1], str) and re.match(r"\.[01](\.\*)*$", x[1]) and isinstance(x[0], tuple) \
             and len(x[0]) == 3 and isinstance(x[0][0], str) and re.search(r"split_at(_mut)?$", x[0][0]):
         v = view(x[0][1])                       # the halves of data.split_at(mid)
@@ -63,9 +66,9 @@ def view(x):
 def lin(t):
     """linear form {var: coeff, 1: const} of an expression tree built from op:Add / op:Sub / constants"""
     if isinstance(t, bool):
-        return {1: int(t)}
+        return {1: int(t)} if t else {}
     if isinstance(t, int):
-        return {1: t}
+        return {1: t} if t else {}
     if isinstance(t, tuple) and len(t) == 2 and t[0] == "slice::len" and t[1] != DATA:
         v = view(t[1])
         if v is not None and v[0] == DATA and v[2] is not None:
@@ -125,6 +128,33 @@ def guard_form(g):
         n = leaf_name(k)
         out[n] = out.get(n, 0) + c
     return tuple(sorted(((str(k), c) for k, c in out.items() if c != 0)))
+
+
+def get_guards(pa):
+    """the decisions taken by `s.get(range)` on this path, as comparisons: Some => start <= end <= len(s); None (for a
+    one-sided range) => the bound exceeds len(s).  -> [(op, a, b, value)] like Path.guards(), None entries when inexpressible"""
+    out = []
+    for i, e in enumerate(pa.log):
+        if e[0] != "call" or not re.search(r"slice::<impl \[.*\]>::get(_mut)?(::<.*>)?$", e[1]):
+            continue
+        v = next((x[2] for x in pa.log[i:] if x[0] == "choice" and x[1] == "variant(%s)" % e[4]), None)
+        if v is None:
+            continue
+        a = C.expr_of(pa, e[2], 0, i)
+        base, r = a[0], a[1] if len(a) > 1 else None
+        ln = ("slice::len", base)
+        if not isinstance(r, tuple):
+            out.append(None)
+        elif r[0] == "RangeTo":
+            out.append(("Ge", ln, r[1], 1 if v == "Some" else 0))
+        elif r[0] == "RangeFrom":
+            out.append(("Ge", ln, r[1], 1 if v == "Some" else 0))
+        elif r[0] == "Range" and v == "Some":
+            out.append(("Ge", r[2], r[1], 1))
+            out.append(("Ge", ln, r[2], 1))
+        else:
+            out.append(None)
+    return out
 
 
 def form(**kw):
@@ -201,6 +231,9 @@ def _abs_extent(t):
         return _abs_extent(t[1])
     if t == "top:data":
         return "data", {}, {"L": 1}
+    if isinstance(t, tuple) and len(t) == 2 and isinstance(t[1], str) and re.match(r"\.some(\.\*)*$", t[1]) and isinstance(t[0], tuple) \
+            and len(t[0]) == 3 and isinstance(t[0][0], str) and re.search(r"(^|::)get(_mut)?$", t[0][0]):
+        return _abs_extent(("index",) + tuple(t[0][1:]))          # the Some payload of s.get(range)
     if isinstance(t, str) and ("dec.buffer" in t or t.startswith("top:havoc:index_mut") or t.startswith("top:havoc:copy_from_slice")
                                or t.startswith("top:havoc:clone_from_slice")):
         return "buffer", {}, {"B": 1}
@@ -309,6 +342,8 @@ def r16_4_invariant(ctx, prog, rule="R16.4"):
         cmps = {}
         nob = 0
 
+        gets = {}
+
         def prove(what, goal):
             nonlocal nob
             nob += 1
@@ -334,6 +369,22 @@ def r16_4_invariant(ctx, prog, rule="R16.4"):
                 f = guard_form((op, a, b, e[2]))
                 if f is not None:
                     facts.append({(1 if k == "1" else k): v for k, v in f})
+            elif e[0] == "choice" and str(e[1]).startswith("variant(ret:get@") and e[1] in gets:
+                # s.get(range) decided: Some => start <= end <= len(s) (None of a one-sided range: the bound exceeds len(s))
+                base, r = gets[e[1]]
+                ln = ("slice::len", base)
+                gs = []
+                if isinstance(r, tuple) and r[0] in ("RangeTo", "RangeFrom"):
+                    gs.append(("Ge", ln, r[1], 1 if e[2] == "Some" else 0))
+                elif isinstance(r, tuple) and r[0] == "Range" and e[2] == "Some":
+                    gs += [("Ge", r[2], r[1], 1), ("Ge", ln, r[2], 1)]
+                for g in gs:
+                    f = guard_form(g)
+                    if f is not None:
+                        facts.append({(1 if k == "1" else k): v for k, v in f})
+            elif e[0] == "call" and re.search(r"slice::<impl \[.*\]>::get(_mut)?(::<.*>)?$", e[1]):
+                a_ = C.expr_of(pa, e[2])
+                gets["variant(%s)" % e[4]] = (a_[0], a_[1] if len(a_) > 1 else None)
             elif e[0] == "call":
                 args = C.expr_of(pa, e[2])
                 nm = C.short(e[1])
@@ -390,6 +441,8 @@ def r16_4_invariant(ctx, prog, rule="R16.4"):
                 failed.append("the returned decoder is not built from this decoder's buffer")
             else:
                 cur, exp = named_lin(st[2]), st[3]
+                if exp == "top:dec.expected_size":          # untouched field
+                    exp = ("Option::Some", "top:dec.expected_size.some") if known == "Some" else "Option::None"
                 if exp == "Option::None":
                     prove("Inv': current_size' < 20", minus({1: 19}, cur))
                 elif isinstance(exp, tuple) and exp[0] == "Option::Some":
@@ -468,8 +521,17 @@ def check(ctx, env):
     c0 = "top:dec.current_size"
     L = None
     n = 0
+    from .. import fm
+    n_infeasible = 0
     for pa in paths:
         known = pa.choice(r"^variant\(dec\.expected_size\)$")
+        # a path whose comparisons contradict each other or the class invariant (R16.4) cannot be taken: E2 explores both
+        # outcomes of `0 > 0`-like tests that piecewise operations (min, checked_sub) leave behind; such paths carry no duty
+        gforms = [guard_form(g) for g in pa.guards()] + [guard_form(g) if g is not None else None for g in get_guards(pa)]
+        gfacts = [{(1 if k == "1" else k): v for k, v in f} for f in gforms if f is not None]
+        if fm.infeasible([{"B": 1, 1: -20}] + inv(known) + [{"L": 1}, {"m": 1}, {"m": -1, 1: 65535}] + gfacts):
+            n_infeasible += 1
+            continue
         copies = []
         for e in pa.calls:
             if C.short(e[1]).endswith("copy_from_slice"):
@@ -534,6 +596,8 @@ def check(ctx, env):
                 probs.append("MoreBytesNeeded does not return the decoder: %s" % show(st)[:80])
             else:
                 _n, buf, cur, exp = st
+                if exp == "top:dec.expected_size":          # the field was not touched: it still has the value this path found
+                    exp = ("Option::Some", "top:dec.expected_size.some") if known == "Some" else "Option::None"
                 if not eq(cur, fill):
                     probs.append("current_size' = %s != fill level %s" % (show(cur)[:80], show(fill)[:80]))
                 if L is not None and not eq(total, L):
@@ -568,11 +632,18 @@ def check(ctx, env):
         if kind == "MoreBytesNeeded":
             cls = kind if known == "Some" else "%s:%s" % (kind, "None" if ret[1][1][2] == "Option::None" else "Some")
         want = GUARDS.get((known, cls))
-        got = [guard_form(g) for g in pa.guards()]
+        got = [f for f in gforms if f is None or any(k != "1" for k, _v in f)]      # constant (trivially true) tests select nothing
         if want is None:
             ctx.ob("R16.3", key, False, "unexpected path class %s/%s" % (known, cls), info["where"], replay=pa.describe())
         else:
-            okg = None not in got and sorted(got) == sorted(want)
+            # the same decision, not the same spelling: under the class invariant the conjunction of the tests taken is
+            # equivalent to the reassembler's condition for this class (each side entails every test of the other)
+            okg = None not in got
+            if okg and sorted(set(got)) != sorted(set(want)):
+                base_f = [{"B": 1, 1: -20}] + inv(known) + [{"L": 1}, {"m": 1}, {"m": -1, 1: 65535}]
+                as_fact = lambda f: {(1 if k == "1" else k): v for k, v in f}
+                gf, wf = [as_fact(f) for f in got], [as_fact(f) for f in want]
+                okg = all(fm.entails(base_f + gf, w) for w in wf) and all(fm.entails(base_f + wf, g) for g in gf)
             ctx.ob("R16.3", key, okg, "path taken iff %s (expected %s)" % (" and ".join(fmt_form(x) for x in got), " and ".join(fmt_form(x) for x in want)),
                    info["where"], replay=None if okg else pa.describe())
         ok = not probs
